@@ -12,9 +12,16 @@
    single event passes the Spec oracle (exactly Tor's circuits/streams with their latest attributes; every
    stream under exactly the circuit object it is on, once; none under any object after DETACHED / CLOSED /
    FAILED, also when that circuit closed first).  It is proved in full, no clause is refuted or partial.
-   The other theorems restate clauses of the property directly on model states. *)
+   The other theorems restate clauses of the property directly on model states.
+
+   C07_refines_tor_view_with_builds is the same statement for histories that also contain build_circuit() calls
+   and Tor's answers to them (Spec.C07.stim: the answer 250 EXTENDED id to the oldest outstanding call, or an error,
+   at any later position, before or after the first CIRC event of id): in addition every call completes with the
+   Circuit object listed under the id Tor named, which is the object listed before the answer if the circuit had
+   been announced already (one object per id).  The answer is read as Tor's statement "id EXTENDED" (no keywords, no
+   path); legality requires that no hop of id was reported before it. *)
 From Coq Require Import List Bool Arith NArith.
-From TxVerif Require Import Lib.Bytes Lib.NList Spec.C07 Model.State Proofs.C07Proofs.
+From TxVerif Require Import Lib.Bytes Lib.NList Spec.C07 Model.State Proofs.C07Proofs Proofs.C07Builds.
 Import ListNotations.
 Open Scope N_scope.
 
@@ -22,6 +29,11 @@ Theorem C07_refines_tor_view : forall rts snap evs, legal snap evs = true ->
   exists tr, run rts snap evs = Some tr /\ oracle snap evs tr = true.
 Proof. exact run_satisfies_oracle. Qed.
 Print Assumptions C07_refines_tor_view.
+
+Theorem C07_refines_tor_view_with_builds : forall rts snap l, legal2 snap l = true ->
+  exists tr, run2 rts snap l = Some tr /\ oracle2 snap l tr = true.
+Proof. exact run2_satisfies_oracle2. Qed.
+Print Assumptions C07_refines_tor_view_with_builds.
 
 (* the model state after any legal history abstracts to exactly Tor's view of that history
    (ids in the same order, latest status / purpose / flags / path / target / source, attachment) *)
@@ -73,4 +85,15 @@ Example C07_nonvacuous :
   option_map (map (fun o => (map co_id (o_circs o), map so_id (o_streams o), o_heap o))) (run [] [] evs) =
   Some [([], [], []); ([1], [], [(0, [])]); ([1], [7], [(0, [])]); ([1], [7], [(0, [0])]);
         ([], [7], [(0, [0])]); ([1], [7], [(0, [0]); (1, [])]); ([1], [], [(1, [])])].
+Proof. vm_compute. split; reflexivity. Qed.
+
+(* with builds: the event before the answer, and the answer before the event; one object per circuit *)
+Example C07_builds_nonvacuous :
+  let l := [SBuild [2; 3]; SEv (ECirc 4 CLaunched [] [(0, 0)]); SExtended 4; SBuild []; SExtended 5;
+            SEv (ECirc 5 CLaunched [] []); SBuild [1]; SBuildErr] in
+  legal2 [] l = true /\
+  option_map (map (fun x => (listing (fst x), snd x))) (run2 [] [] l) =
+  Some [([], []); ([], [(0, 2); (3, 2); (3, 3)]); ([(4, 0)], []); ([(4, 0)], [(1, 0); (4, 0)]); ([(4, 0)], [(0, 0)]);
+        ([(4, 0); (5, 1)], [(1, 1); (4, 1)]); ([(4, 0); (5, 1)], []); ([(4, 0); (5, 1)], [(0, 1); (3, 1)]);
+        ([(4, 0); (5, 1)], [(2, 2)])].
 Proof. vm_compute. split; reflexivity. Qed.
